@@ -379,7 +379,7 @@ func (c *Ctx) resolve(rule, key string, pos token.Pos, f *ssa.Function, b *ssa.B
 		c.ok(rule, key, pos, okMsg)
 		return
 	}
-	ex, ok := env.cfg.exc[key]
+	ex, ok := excLookupE(env.cfg.exc, key)
 	if !ok && (rule == "E1.P2-bounds" || rule == "E1.P4-alloc") {
 		ex, ok = env.cfg.exc["fn:"+fnName(f)]
 	}
@@ -409,7 +409,7 @@ func (c *Ctx) guardsMissing(ex excEntry, f *ssa.Function, b *ssa.BasicBlock) str
 		found := false
 		for _, bb := range gf.Blocks {
 			ifi := lastIf(bb)
-			if ifi == nil || shape(ifi.Cond, 3) != g.cond {
+			if ifi == nil || (shape(ifi.Cond, 3) != g.cond && eraseNames(shape(ifi.Cond, 3)) != eraseNames(g.cond)) {
 				continue
 			}
 			// the guard must reject: one of its edges leads (directly) to a return of a non-nil error
@@ -476,7 +476,7 @@ func (c *Ctx) oblWith(rule, key string, pos token.Pos, p *proverCtx, f *ssa.Func
 		c.ok(rule, key, pos, okMsg)
 		return
 	}
-	if _, has := env.cfg.exc[key]; has || depth >= env.cfg.maxDepth || !isInternalFunc(frontier) || env.ci.addrTaken[origin(frontier)] || !dependsOnParams(p, g, frontier) {
+	if _, has := excLookupE(env.cfg.exc, key); has || depth >= env.cfg.maxDepth || !isInternalFunc(frontier) || env.ci.addrTaken[origin(frontier)] || !dependsOnParams(p, g, frontier) {
 		c.resolve(rule, key, pos, f, b, false, env, okMsg, badMsg)
 		return
 	}
